@@ -9,7 +9,13 @@
 (*           the real Driver.update_progress_message find an entry for      *)
 (*           every step 0..len(join_points)-2;                              *)
 (*  "assign" items [id, kind, hosts, n, a, l2]: a = calculate_worker_       *)
-(*           assignments(hosts, n).                                         *)
+(*           assignments(hosts, n);                                         *)
+(*  "start"  items [id, kind, hosts, n, a, created, sent, cpw, l2]: the real *)
+(*           Driver.start_benchmark run with a recording driver actor on    *)
+(*           load-driver hosts `hosts` and a schedule needing n clients:    *)
+(*           created / sent as described in Allocator.tla (recorded at call *)
+(*           time), a = the real calculate_worker_assignments(hosts, n),    *)
+(*           cpw = Driver.clients_per_worker by client id.                  *)
 (* Verdict lines are printed one per failing clause: TLC wraps values wider *)
 (* than 80 columns over several lines, which the harness cannot parse.      *)
 (* L1: the clauses of property C02 on the recorded values.                  *)
@@ -32,6 +38,14 @@ Check(it) ==
                              /\ it.jps = JoinPoints(am)
                              /\ tpj = TasksPerJP(am)
                              /\ it.clients = MaxClients(it.s))
+        IN /\ \A c \in l1 : PrintT(<<"V", it.id, 1, "L1", {c}>>)
+           /\ IF l1 # {} \/ l2 THEN TRUE ELSE PrintT(<<"V", it.id, 1, "L2", {}>>)
+    ELSE IF it.kind = "start" THEN
+        LET l1 == StartFailing(it.n, it.a, it.created, it.sent)
+            plan == StartPlan(Assign(it.hosts, it.n))
+            l2 == ~it.l2 \/ (/\ it.created = PlanCreated(plan)
+                             /\ it.sent = PlanSent(plan)
+                             /\ it.cpw = ClientsPerWorker(it.n, plan))
         IN /\ \A c \in l1 : PrintT(<<"V", it.id, 1, "L1", {c}>>)
            /\ IF l1 # {} \/ l2 THEN TRUE ELSE PrintT(<<"V", it.id, 1, "L2", {}>>)
     ELSE
